@@ -8,7 +8,7 @@ def run(tier):
     c.mc("DataText", "MC_DataText", workers=8, timeout=1500)
     nsh = 8 if tier == "quick" else 16
     traces = []
-    for k, sd in enumerate(vlib.seeds(tier, 2)):
+    for k, sd in enumerate(vlib.seeds(tier, 10)):
         traces += c.drive(exe, [["@OUT", tier, sd, i, nsh] for i in range(nsh)], tag="dt%d" % k)
     bads = c.validate("DataText", "Trace_DataText", traces, timeout=3400, xmx="6g")
     c.judge(bads)
